@@ -115,7 +115,7 @@ struct pcase_t
 rc::Gen<std::vector<double>> gen_values(bool integers, size_t maxn)
 {
     return rc::gen::mapcat(
-        gen::range<int>(0, 3),
+        gen::range<int>(0, 5),
         [=](int style) -> rc::Gen<std::vector<double>>
         {
             rc::Gen<double> elem = gen::smallint(-4, 4);
@@ -124,14 +124,18 @@ rc::Gen<std::vector<double>> gen_values(bool integers, size_t maxn)
                 elem = style == 0   ? gen::smallint(-3, 3)
                        : style == 1 ? gen::smallint(-1000, 1000)
                        : style == 2 ? gen::smallint(0, 1)
-                                    : gen::smallint(-100000, 100000);
+                       : style == 3 ? gen::smallint(-100000, 100000)
+                       : style == 4 ? gen::smallint(-30000, 30000)       // sums beyond 16 bits
+                                    : gen::smallint(-1000000000, 1000000000); // sums beyond 32 bits
             }
             else
             {
                 elem = style == 0   ? gen::smallint(-3, 3)
                        : style == 1 ? gen::sym(1.0)
                        : style == 2 ? rc::gen::map(gen::smallint(-20, 20), [](double v) { return v / 10.0; })
-                                    : gen::sym(1e6);
+                       : style == 3 ? gen::sym(1e6)
+                       : style == 4 ? rc::gen::map(gen::smallint(-4000, 4000), [](double v) { return v / 8.0; })          // floats
+                                    : rc::gen::map(gen::smallint(-8000000, 8000000), [](double v) { return v * 0.5; }); // floats with 23-bit mantissas
             }
             return rc::gen::mapcat(gen::range<size_t>(1, maxn),
                                    [=](size_t n) { return rc::gen::container<std::vector<double>>(n, elem); });
@@ -632,7 +636,44 @@ verdict_t check_histogram(const hcase_t& c, ctx_t& ctx)
     {
         return verdict_t::discard("bins-out-of-domain");
     }
-    return c.integers ? check_histogram_typed<int64_t>(c, ctx) : check_histogram_typed<double>(c, ctx);
+    // storage type of the list (the reference always works on the generated doubles, which every chosen type holds exactly)
+    double mag   = 0.0;
+    bool   exact = true; // every value is a float
+    for (const auto v : c.values)
+    {
+        mag   = std::max(mag, std::fabs(v));
+        exact = exact && static_cast<double>(static_cast<float>(v)) == v;
+    }
+    if (c.integers)
+    {
+        switch (c.values.size() % 3)
+        {
+        case 1:
+            if (mag <= 2.0e9)
+            {
+                ctx.label("storage:int32");
+                return check_histogram_typed<int32_t>(c, ctx);
+            }
+            break;
+        case 2:
+            if (mag <= 30000.0)
+            {
+                ctx.label("storage:int16");
+                return check_histogram_typed<int16_t>(c, ctx);
+            }
+            break;
+        default: break;
+        }
+        ctx.label("storage:int64");
+        return check_histogram_typed<int64_t>(c, ctx);
+    }
+    if (c.values.size() % 2 == 1 && exact)
+    {
+        ctx.label("storage:float");
+        return check_histogram_typed<float>(c, ctx);
+    }
+    ctx.label("storage:double");
+    return check_histogram_typed<double>(c, ctx);
 }
 } // namespace
 
